@@ -168,19 +168,35 @@ func (s *Service) Execute(ctx context.Context, name string, args []interface{}) 
 	}
 	n := len(args)
 	var in []reflect.Value
+	f := method.Func()
+	ft := f.Type()
+	// a nil argument (nil decoded into an interface{} parameter) is the zero value of its parameter type:
+	// reflect.ValueOf(nil) is the invalid Value and Call would panic before the function is entered
+	argValue := func(i int, arg interface{}) reflect.Value {
+		if arg != nil {
+			return reflect.ValueOf(arg)
+		}
+		k := ft.NumIn()
+		switch {
+		case ft.IsVariadic() && i >= k-1:
+			return reflect.Zero(ft.In(k - 1).Elem())
+		case i < k:
+			return reflect.Zero(ft.In(i))
+		}
+		return reflect.ValueOf(arg)
+	}
 	if method.PassContext() {
 		in = make([]reflect.Value, n+1)
 		in[0] = reflect.ValueOf(ctx)
 		for i := 0; i < n; i++ {
-			in[i+1] = reflect.ValueOf(args[i])
+			in[i+1] = argValue(i+1, args[i])
 		}
 	} else {
 		in = make([]reflect.Value, n)
 		for i := 0; i < n; i++ {
-			in[i] = reflect.ValueOf(args[i])
+			in[i] = argValue(i, args[i])
 		}
 	}
-	f := method.Func()
 	out := f.Call(in)
 	n = len(out)
 	if method.ReturnError() {
